@@ -33,6 +33,9 @@ var fieldAlias = map[string]map[string]string{}
 // are aliased to the reference struct's fields they replace, and the selection itself has no name.
 var passThrough = map[string]bool{}
 
+// typeAlias: struct type of this tree -> the name the reference tree has for it.
+var typeAlias = map[string]string{}
+
 // fnAlias maps a function to the baseline key it stands for.
 var fnAlias = map[*ssa.Function]string{}
 
@@ -189,6 +192,54 @@ func (p *Program) resolveFieldRenames() {
 			var i int
 			fmt.Sscan(parts[3], &i)
 			base[parts[2]] = append(base[parts[2]], bf{i, parts[4], parts[5]})
+		}
+	}
+	// renamed struct types: a struct the reference tree does not have whose field types are, in order, those of a
+	// reference struct this tree does not have
+	cur := map[string]*types.Struct{}
+	for _, pk := range p.Pkgs {
+		if !strings.HasPrefix(pk.PkgPath, modPath) {
+			continue
+		}
+		sc := pk.Types.Scope()
+		for _, nm := range sc.Names() {
+			if tn, ok := sc.Lookup(nm).(*types.TypeName); ok {
+				if st, ok := tn.Type().Underlying().(*types.Struct); ok {
+					cur[typeName(tn.Type())] = st
+				}
+			}
+		}
+	}
+	var curNames []string
+	for k := range cur {
+		curNames = append(curNames, k)
+	}
+	sort.Strings(curNames)
+	for _, tname := range curNames {
+		st := cur[tname]
+		if len(base[tname]) > 0 || st.NumFields() == 0 {
+			continue
+		}
+		var cands []string
+		for bname, bfs := range base {
+			if _, still := cur[bname]; still || len(bfs) != st.NumFields() {
+				continue
+			}
+			short := func(s string) string { return s[strings.LastIndex(s, ".")+1:] }
+			same := true
+			for _, b := range bfs {
+				ts := types.TypeString(st.Field(b.idx).Type(), nil)
+				if strings.ReplaceAll(ts, "."+short(tname), "."+short(bname)) != b.typ {
+					same = false
+				}
+			}
+			if same {
+				cands = append(cands, bname)
+			}
+		}
+		if len(cands) == 1 {
+			typeAlias[tname] = cands[0]
+			aliasNotes = append(aliasNotes, fmt.Sprintf("[%s] struct type %s of the reference tree is %s in this tree", p.Cfg, cands[0], tname))
 		}
 	}
 	for _, pk := range p.Pkgs {
